@@ -358,6 +358,30 @@ def replay_numeric(which):
         ok_spaces = sol[0].space == dp0 and sol[1].space == p1
         if not ok_spaces:
             errs["lu blocked spaces"] = 1.0
+        # "the returned functions live in the domain spaces of A": a blocked system whose FIRST domain space lives on the barycentric refinement (DUAL0: the number of its
+        # dofs differs from the number of grid dofs of the refined grid), coupled through sparse blocks only where dense assembly is not available
+        from bempp_cl.api.operators.boundary import sparse as _sp, laplace as _lp
+
+        gt = SG.make_grid(*SG.tetra())
+        q1, d0 = api.function_space(gt, "P", 1), api.function_space(gt, "DUAL", 0)
+        part = Z.params(3, 3)
+        Bd = api.BlockedOperator(2, 2)
+        Bd[0, 0] = _sp.identity(d0, q1, q1, parameters=part)
+        Bd[0, 1] = 0.5 * _sp.identity(q1, q1, q1, parameters=part) + _lp.double_layer(q1, q1, q1, parameters=part)
+        Bd[1, 1] = _lp.single_layer(q1, q1, q1, parameters=part)
+        fd = api.GridFunction(d0, coefficients=rng.randn(d0.global_dof_count))
+        fq = api.GridFunction(q1, coefficients=rng.randn(q1.global_dof_count))
+        for lab, solve in (("lu", lambda: lu(Bd, Bd * [fd, fq])), ("lu with factors", lambda: lu(Bd, Bd * [fd, fq], lu_factor=compute_lu_factors(Bd))),
+                           ("gmres", lambda: gmres(Bd, Bd * [fd, fq], tol=1e-12)[0])):
+            try:
+                sd = solve()
+                e = max(Z.relerr(sd[0].coefficients, fd.coefficients), Z.relerr(sd[1].coefficients, fq.coefficients)) if (
+                    sd[0].coefficients.shape == fd.coefficients.shape and sd[1].coefficients.shape == fq.coefficients.shape) else 1.0
+                if sd[0].space != d0 or sd[1].space != q1:
+                    e = 1.0
+            except Exception as ex:  # noqa
+                e = 1.0
+            errs["blocked (DUAL0, P1) domain spaces, %s" % lab] = e if lab != "gmres" else (0.0 if e < 1e-7 else e)
     bad = {k: v for k, v in errs.items() if v > 1e-9}
     details = dict(errs)
     if which in ("gmres", "cg", "all"):
